@@ -1,19 +1,40 @@
-import Driver.Util
-import PytezosModel.Michelson.BigMap
-open Driver Impl.BigMap
+import Driver.C03IO
+import PytezosModel.Proofs.C15Keys
+import PytezosModel.Michelson.BigMapKey
+open Driver Driver.C03IO Order Impl.BigMap Proofs.C15Keys
 
-/-! line protocol (keys are indices into the sorted key universe, values naturals):
+/-! C15 driver.  One scenario (= one `Interpreter.run_code` call of the harness) per line, five sections separated by `|`:
 
-  `<mode> <id> | <on-chain k=v …> | <literal k=v …> | <ops …>`
+  `<key type> <n> <k0> … <k(n-1)> | <initial big maps> | <on-chain contents> | <events> | <stored slots>`
 
-  mode `fresh`  : storage is the literal (no id): temporary id, action `alloc`
-  mode `onchain`: storage is the id `<id>` of an existing big map: registered, action `update`
-  mode `copy`   : the *parameter* is the id `<id>` (registered as a copy under a temporary id, action `copy`),
-                  the storage holds an unrelated empty literal (takes the next temporary id) that is dropped
-  ops: `gK` GET, `mK` MEM, `uK=V` / `uK=-` UPDATE Some / None, `aK=V` / `aK=-` GET_AND_UPDATE
+* key type / keys: the token encoding of Driver/C03IO.lean (comparable type in prefix notation, structured values);
+  keys are referred to by their index in this universe everywhere else; values are natural-number codes (the dictionary
+  semantics never looks inside a value; the harness renders a code as a value of the chosen Michelson type).
+* initial big maps, in the order `begin` attaches the context (parameter first, then the storage fields left to right):
+  `P<id>` the PARAMETER is the id of an on-chain big map (registered as a copy under a temporary id, action `copy`);
+  `S<id>` a storage field is the id of an on-chain big map (registered, action `update`);
+  `L` / `L<k>:<v>,<k>:<v>…` a storage field is a literal (temporary id, action `alloc`); refused by `check_constraints`
+  when the keys are not strictly ascending.  The big maps are numbered 0, 1, … in this order ("slots").
+* on-chain contents: `<id>:<k>=<v>` …
+* events: `g<s>.<k>` GET, `m<s>.<k>` MEM, `u<s>.<k>=<v>` / `u<s>.<k>=-` UPDATE Some / None, `a<s>.<k>=…` GET_AND_UPDATE on
+  slot `s`; `d<s>` DUP of slot `s` (the duplicate becomes the next slot: same id, own copy of the local layer).
+* stored slots: the slots that END in the storage fields, in field order (every other slot is dropped).
 
-  output: `obs <o …> ; diff <id> <action> <k=v|k=- … sorted by key> ; state <id left in the storage>`
-          | `rejected` (literal refused by check_constraints) | `unrecognised-source` | `bad-op` -/
+Output: `obs <o …> ; diff <id> <action> <updates> ; … ; state <id …>` — one `diff` per stored slot in field order; updates
+that carry a value in emitted order, then the removals sorted by key index (their order is Python-set order) —
+| `rejected` (a literal refused) | `unrecognised-source` | `ill-typed` | `bad-op`.
+
+Second line kind: `pack <key type> <key>` → the bytes of `key.pack(legacy=True)` in hex (what the key hash is taken of). -/
+namespace C15Driver
+
+inductive Init
+  | par (p : Int)
+  | sid (p : Int)
+  | lit (items : List (Nat × Nat))
+
+inductive Ev (τ : CTy)
+  | op (slot : Nat) (o : Op (TVal τ) Nat)
+  | dup (slot : Nat)
 
 def parseKV (s : String) : Option (Nat × Option Nat) :=
   match s.splitOn "=" with
@@ -22,79 +43,195 @@ def parseKV (s : String) : Option (Nat × Option Nat) :=
     if v = "-" then pure (k, none) else do let v ← v.toNat?; pure (k, some v)
   | _ => none
 
-def parseOp (s : String) : Option (Op Nat Nat) :=
-  match s.toList with
-  | 'g' :: r => (String.ofList r).toNat?.map .get
-  | 'm' :: r => (String.ofList r).toNat?.map .mem
-  | 'u' :: r => (parseKV (String.ofList r)).map fun kv => .update kv.1 kv.2
-  | 'a' :: r => (parseKV (String.ofList r)).map fun kv => .getAndUpdate kv.1 kv.2
+def parseLitItem (s : String) : Option (Nat × Nat) :=
+  match s.splitOn ":" with
+  | [k, v] => do
+    let k ← k.toNat?
+    let v ← v.toNat?
+    pure (k, v)
   | _ => none
+
+def parseInit (s : String) : Option Init :=
+  let body := (s.drop 1).toString
+  match s.front with
+  | 'P' => (parseInt body).map .par
+  | 'S' => (parseInt body).map .sid
+  | 'L' => if body = "" then some (.lit []) else ((body.splitOn ",").mapM parseLitItem).map .lit
+  | _ => none
+
+/-- `<id>:<k>=<v>` -/
+def parseChain (s : String) : Option (Int × Nat × Nat) :=
+  match s.splitOn ":" with
+  | [i, kv] => do
+    let i ← parseInt i
+    let (k, v) ← parseKV kv
+    let v ← v
+    pure (i, k, v)
+  | _ => none
+
+def parseEv {τ : CTy} (univ : List (TVal τ)) (s : String) : Option (Ev τ) :=
+  let body := (s.drop 1).toString
+  match s.front with
+  | 'd' => body.toNat?.map .dup
+  | c =>
+    match body.splitOn "." with
+    | [sl, rest] => do
+      let sl ← sl.toNat?
+      match c with
+      | 'g' => do let k ← rest.toNat?; let key ← univ[k]?; pure (.op sl (.get key))
+      | 'm' => do let k ← rest.toNat?; let key ← univ[k]?; pure (.op sl (.mem key))
+      | 'u' => do let (k, v) ← parseKV rest; let key ← univ[k]?; pure (.op sl (.update key v))
+      | 'a' => do let (k, v) ← parseKV rest; let key ← univ[k]?; pure (.op sl (.getAndUpdate key v))
+      | _ => none
+    | _ => none
+
+def idx {τ : CTy} (univ : List (TVal τ)) (x : TVal τ) : Nat :=
+  match univ.findIdx? (fun v => v == x) with
+  | some i => i
+  | none => univ.length
 
 def showOpt : Option Nat → String
   | some v => s!"S{v}"
   | none => "N"
 
-def showObs : Obs Nat → String
-  | .val v => showOpt v
-  | .bool true => "T"
-  | .bool false => "F"
-  | .unit => "U"
-
-def showKV (e : Nat × Option Nat) : String :=
-  match e.2 with
-  | some v => s!"{e.1}={v}"
-  | none => s!"{e.1}=-"
+def showObs : Obs Nat → Option String
+  | .val v => some (showOpt v)
+  | .bool true => some "T"
+  | .bool false => some "F"
+  | .unit => none
 
 def showAction : Action → String
   | .alloc => "alloc"
   | .copy => "copy"
   | .update => "update"
 
-/-- canonical order for anything derived from a Python set: by key (stable) -/
-def sortKV (xs : List (Nat × Option Nat)) : List (Nat × Option Nat) := sortByKey Nat.blt xs
+/-- canonical form of the `updates` of an entry: valued updates in emitted order, then the removals by key index -/
+def showUpdates {τ : CTy} (univ : List (TVal τ)) (ups : List (TVal τ × Option Nat)) : String :=
+  let valued := ups.filterMap fun u => u.2.map fun v => s!"{idx univ u.1}={v}"
+  let removed := (ups.filter fun u => u.2.isNone).map fun u => (idx univ u.1, ())
+  let removed := (sortByKey Nat.blt removed).map fun e => s!"{e.1}=-"
+  joinWith " " (valued ++ removed)
+
+/-- what `get` of a big map attached to context `c` reads from the node -/
+def chainOf {τ : CTy} (chains : Int → TVal τ → Option Nat) (c : Ctx) (b : BM (TVal τ) Nat) : TVal τ → Option Nat := fun k =>
+  match b.ptr with
+  | none => none
+  | some bp =>
+    match getBigMapValue (some chains) c bp k with
+    | .ok v => v
+    | .error _ => none
+
+/-- `begin`: every literal was already checked by `from_micheline_value`; contexts are attached in order -/
+def attachAll {τ : CTy} (univ : List (TVal τ)) : List Init → Ctx → List (BM (TVal τ) Nat) →
+    Option (Option (List (BM (TVal τ) Nat) × Ctx))     -- none: bad-op; some none: rejected
+  | [], c, acc => some (some (acc.reverse, c))
+  | i :: is, c, acc =>
+    match i with
+    | .par p => let r := attachContext c (⟨[], [], some p⟩ : BM (TVal τ) Nat) true; attachAll univ is r.2 (r.1 :: acc)
+    | .sid p => let r := attachContext c (⟨[], [], some p⟩ : BM (TVal τ) Nat) false; attachAll univ is r.2 (r.1 :: acc)
+    | .lit items =>
+      match items.mapM (fun e => univ[e.1]?.map fun k => (k, e.2)) with
+      | none => none
+      | some kvs =>
+        match fromLiteral TVal.lt kvs with
+        | none => some none
+        | some b => let r := attachContext c b false; attachAll univ is r.2 (r.1 :: acc)
+
+/-- literals are parsed (and refused) before anything is attached: a refused literal anywhere refuses the call -/
+def anyRefused {τ : CTy} (univ : List (TVal τ)) (is : List Init) : Bool :=
+  is.any fun i =>
+    match i with
+    | .lit items =>
+      match items.mapM (fun e => univ[e.1]?.map fun k => (k, e.2)) with
+      | none => false
+      | some kvs => (fromLiteral TVal.lt kvs).isNone
+    | _ => false
+
+def runEvents {τ : CTy} (sh : Generated.C15.UpdateShape) (chains : Int → TVal τ → Option Nat) (c : Ctx) :
+    List (Ev τ) → List (BM (TVal τ) Nat) → List String → Option (List (BM (TVal τ) Nat) × List String)
+  | [], slots, obs => some (slots, obs.reverse)
+  | .dup s :: es, slots, obs =>
+    match slots[s]? with
+    | none => none
+    | some b =>
+      match duplicate b with                                         -- same id, own copy of the local layer
+      | none => none
+      | some b' => runEvents sh chains c es (slots ++ [b']) obs
+  | .op s o :: es, slots, obs =>
+    match slots[s]? with
+    | none => none
+    | some b =>
+      let r := stepSh sh TVal.lt (chainOf chains c b) b o
+      let obs' := match showObs r.1 with | some t => t :: obs | none => obs
+      runEvents sh chains c es (slots.set s r.2) obs'
+
+/-- `end`: the stored slots are aggregated in field order, the context is threaded -/
+def aggregateAll {τ : CTy} (univ : List (TVal τ)) : List (BM (TVal τ) Nat) → Ctx → List String → List String →
+    Option (List String × List String)
+  | [], _, diffs, ids => some (diffs.reverse, ids.reverse)
+  | b :: bs, c, diffs, ids =>
+    match aggregateLazyDiff (fun (_ : TVal τ) => ()) c b with
+    | none => none
+    | some (e, b', c') =>
+      let ups := e.updates.map fun u => (u.1, u.2.2)
+      let d := s!"diff {e.id} {showAction e.action} {showUpdates univ ups}"
+      let p := match b'.ptr with | some q => toString q | none => "-"
+      aggregateAll univ bs c' (d :: diffs) (p :: ids)
+
+/-- second line kind: `pack <type> <value>` → hex of `key.pack(legacy=True)` | `ill-typed` | `refused` -/
+def handlePack (toks : List String) : String :=
+  match parseTy toks with
+  | some (τ, r) =>
+    match parseVals τ 1 r with
+    | some ([k], []) =>
+      match packLegacy k.1 with
+      | some bs => toHex bs
+      | none => "refused"
+    | _ => "ill-typed"
+  | none => "bad-op"
 
 def sections (line : String) : List (List String) := (line.splitOn "|").map words
 
 def handle (line : String) : String :=
+  if !Impl.Order.shapesOk then "unrecognised-source" else
+  if line.startsWith "pack " then handlePack ((words line).drop 1) else
+  match config with
+  | none => "unrecognised-source"
+  | some sh =>
   match sections line with
-  | [[mode, id], chain, lit, ops] =>
-    match id.toInt?, chain.mapM parseKV, lit.mapM parseKV, ops.mapM parseOp with
-    | some p, some chain, some lit, some ops =>
-      if lit.any (fun e => e.2.isNone) || chain.any (fun e => e.2.isNone) then "bad-op" else
-      let chains : Int → Nat → Option Nat := fun i k =>
-        if i = p then (chain.find? (fun e => e.1 == k)).bind (·.2) else none
-      -- instantiate + begin: parameter first, then storage
-      let start : Option (Option (BM Nat Nat × Ctx)) :=
-        match mode with
-        | "fresh" => some ((fromLiteral Nat.blt (lit.filterMap fun e => e.2.map fun v => (e.1, v))).map fun b =>
-            attachContext Ctx.empty b false)
-        | "onchain" => some (some (attachContext Ctx.empty (⟨[], [], some p⟩ : BM Nat Nat) false))
-        | "copy" =>
-          let r := attachContext Ctx.empty (⟨[], [], some p⟩ : BM Nat Nat) true
-          let r2 := attachContext r.2 (⟨[], [], none⟩ : BM Nat Nat) false
-          some (some (r.1, r2.2))
-        | _ => none
-      match start with
+  | [head, inits, chain, evs, store] =>
+    match parseTy head with
+    | some (τ, n :: r) =>
+      match n.toNat? with
       | none => "bad-op"
-      | some none => "rejected"
-      | some (some (b, c)) =>
-        match b.ptr with
-        | none => "bad-op"
-        | some bp =>
-          let chainOf : Nat → Option Nat := fun k =>
-            match getBigMapValue (some chains) c bp k with
-            | .ok v => v
-            | .error _ => none
-          match run Nat.blt chainOf b ops with
-          | none => "unrecognised-source"
-          | some (obs, b') =>
-            match aggregateLazyDiff (fun (_ : Nat) => ()) c b' with
+      | some n =>
+        match parseVals τ n r with
+        | none => "ill-typed"
+        | some (univ, rest) =>
+          if !rest.isEmpty then "bad-op" else
+          match inits.mapM parseInit, chain.mapM parseChain, evs.mapM (parseEv univ), store.mapM (·.toNat?) with
+          | some inits, some chain, some evs, some store =>
+            let chains : Int → TVal τ → Option Nat := fun i k =>
+              (chain.find? (fun e => e.1 == i && (univ[e.2.1]?.map (· == k)).getD false)).map (·.2.2)
+            if anyRefused univ inits then "rejected" else
+            match attachAll univ inits Ctx.empty [] with
             | none => "bad-op"
-            | some (e, b'', _) =>
-              let ups := sortKV (e.updates.map fun u => (u.1, u.2.2))
-              let ptr := match b''.ptr with | some q => toString q | none => "-"
-              s!"obs {joinWith " " (obs.map showObs)} ; diff {e.id} {showAction e.action} {joinWith " " (ups.map showKV)} ; state {ptr}"
-    | _, _, _, _ => "bad-op"
+            | some none => "rejected"
+            | some (some (slots, c)) =>
+              match runEvents sh chains c evs slots [] with
+              | none => "bad-op"
+              | some (slots', obs) =>
+                match store.mapM (fun s => slots'[s]?) with
+                | none => "bad-op"
+                | some stored =>
+                  match aggregateAll univ stored c [] [] with
+                  | none => "bad-op"
+                  | some (diffs, ids) =>
+                    s!"obs {joinWith " " obs} ; {joinWith " ; " diffs} ; state {joinWith " " ids}"
+          | _, _, _, _ => "bad-op"
+    | _ => "bad-op"
   | _ => "bad-op"
 
-def main : IO Unit := mainWith handle
+end C15Driver
+
+def main : IO Unit := mainWith C15Driver.handle
